@@ -60,6 +60,11 @@ def run(ctx):
             else:
                 for c in ("compressibility", "viscosity", "z-factor"):
                     del tb[c]
+        stale = k % 4 == 1
+        if stale:
+            # a table that went through the wrapper before (saved from / passed on as another object's pvt_props) still carries that
+            # object's derived column, scaled for ANOTHER initial pressure: derived columns are recomputed, never trusted
+            tb["m-scaled"] = tb0["pseudopressure"] / tb0["pseudopressure"][max(1, len(p) // 3)]
         mode = (k // 3) % 4      # every (variant, p_i mode) pair occurs within 12 consecutive cases
         j = int(rng.integers(1, len(p) - 1))
         p_i = float(p[j]) if mode == 0 else float(rng.uniform(p[1], p[-1])) if mode in (1, 2) else float(rng.choice([p[0] - 1.0, p[-1] + 1.0, p[-1] * 2]))
@@ -69,7 +74,7 @@ def run(ctx):
             for v in arg.values():
                 v.setflags(write=False)
         snap = snapshot(arg)
-        inp = dict(table_kind=kind, rows=len(p), p_i=p_i, user_alpha=bool(user_alpha), full_columns_too=bool(both), simple=bool(simple),
+        inp = dict(table_kind=kind, rows=len(p), p_i=p_i, user_alpha=bool(user_alpha), full_columns_too=bool(both), simple=bool(simple), carries_stale_m_scaled_column=bool(stale),
                    container=["DataFrame", "dict", "dict of read-only arrays"][int(container)],
                    table={c: [float(x) for x in v] for c, v in tb.items()})
         cls = FlowPropertiesSimple if (simple and not user_alpha) else FlowProperties
